@@ -6,6 +6,20 @@ from vlib import Break
 MODULE = "GoNfsd.Props.C16"
 
 
+def const_diffs(ctx):
+    """Concrete differences between the regenerated constant table and the RFC's."""
+    import re
+    f = os.path.join(ctx.scratch, "consts.lean")
+    open(f, "w").write("import GoNfsd.Gen.Xdr\nimport GoNfsd.Spec.Rfc1813\n"
+                       "#eval (GoNfsd.Spec.Rfc1813.consts.filter fun r => !(GoNfsd.Gen.Xdr.consts.contains r)).map fun r =>\n"
+                       "  (r.2.1, r.2.2, (GoNfsd.Gen.Xdr.consts.find? fun g => g.2.1 == r.2.1).map (·.2.2))\n")
+    rc, out = vlib.run(["lake", "build", "GoNfsd.Gen.Xdr", "GoNfsd.Spec.Rfc1813"], cwd=vlib.LEAN, timeout=600)
+    if rc != 0:
+        return []
+    rc, out = vlib.run(["lake", "env", "lean", f], cwd=vlib.LEAN, timeout=600)
+    return re.findall(r'\("([A-Za-z0-9_]+)", (\d+), (none|some (\d+))\)', out)
+
+
 def run(ctx):
     with vlib.Lock():
         ok_go = ctx.phase(ctx.build_go)
@@ -13,6 +27,13 @@ def run(ctx):
         if ok_gen:
             if ctx.phase(ctx.prove, MODULE) and ctx.phase(ctx.audit, MODULE) and ctx.tier == "thorough":
                 ctx.phase(ctx.leanchecker, MODULE)
+            if any(b.kind == "proof" for b in ctx.breaks):
+                for name, want, got, gv in const_diffs(ctx)[:5]:
+                    ctx.add_violation("const:" + name,
+                                      "constant %s is %s in the code, %s in RFC 1813" % (name, gv if gv else "missing", want),
+                                      {"input": {"constant": name, "rfc_value": int(want), "code_value": int(gv) if gv else None},
+                                       "how": "regenerated constant table (Gen/Xdr.consts) compared with the RFC transcription; every message "
+                                              "carrying this constant is encoded with the wrong value"})
         # the driver uses the committed RFC table, so it builds even when the regenerated one is broken
         ok_drv = ctx.phase(ctx.build_driver)
     # the harness walks Go values in the RFC's field order (committed transcription), not the code's
